@@ -67,6 +67,26 @@ type End struct {
 	OpenedAt          time.Time
 	ClosedAt          time.Time
 	Tag               string // free for the harness
+	// receive-side quiet periods: the longest time without new data reaching this end (from OpenedAt on)
+	LastRecvAt time.Time
+	MaxRecvGap time.Duration
+}
+
+// QuietFor is the longest period during which no new data reached this end, counting the period that is still open.
+func (e *End) QuietFor() time.Duration {
+	e.n.mu.Lock()
+	defer e.n.mu.Unlock()
+	last := e.LastRecvAt
+	if last.IsZero() {
+		last = e.OpenedAt
+	}
+	g := e.MaxRecvGap
+	if !e.reof && e.rerr == nil {
+		if cur := time.Since(last); cur > g {
+			g = cur
+		}
+	}
+	return g
 }
 
 type Server interface {
@@ -396,6 +416,15 @@ func (e *End) deliver(label string) {
 		e.outq = e.outq[1:]
 		if !p.closed && p.rerr == nil {
 			p.reof = true
+			{
+				last := p.LastRecvAt
+				if last.IsZero() {
+					last = p.OpenedAt
+				}
+				if g := time.Since(last); g > p.MaxRecvGap {
+					p.MaxRecvGap = g
+				}
+			}
 			p.wakeR()
 			cbEOF = true
 		}
@@ -429,6 +458,14 @@ func (e *End) deliver(label string) {
 		default:
 			p.rbuf = append(p.rbuf, data...)
 			p.BytesIn += len(data)
+			last := p.LastRecvAt
+			if last.IsZero() {
+				last = p.OpenedAt
+			}
+			if g := time.Since(last); g > p.MaxRecvGap {
+				p.MaxRecvGap = g
+			}
+			p.LastRecvAt = time.Now()
 			p.wakeR()
 			cbData = true
 		}
